@@ -1975,11 +1975,12 @@ class DynamicSeedingInstrumentation(transformer.DynamicSeedingInstrumentationAda
     ) -> None:
         node.basic_block[before(instr_index + 2)] = (
             self.instructions_generator.generate_instructions(
-                InstrumentationSetupAction.ADD_FIRST_TWO_REVERSED,
+                InstrumentationSetupAction.COPY_FIRST_TWO,
                 InstrumentationMethodCall(
                     self._dynamic_constant_provider,
-                    DynamicConstantProvider.add_value.__name__,
-                    (InstrumentationStackValue.FIRST,),
+                    DynamicConstantProvider.add_value_for_concatenation.__name__,
+                    # The argument followed by the receiver starts with the argument
+                    (InstrumentationStackValue.FIRST, InstrumentationStackValue.SECOND),
                 ),
                 instr.lineno,
             )
@@ -1998,11 +1999,12 @@ class DynamicSeedingInstrumentation(transformer.DynamicSeedingInstrumentationAda
     ) -> None:
         node.basic_block[before(instr_index + 2)] = (
             self.instructions_generator.generate_instructions(
-                InstrumentationSetupAction.ADD_FIRST_TWO,
+                InstrumentationSetupAction.COPY_FIRST_TWO,
                 InstrumentationMethodCall(
                     self._dynamic_constant_provider,
-                    DynamicConstantProvider.add_value.__name__,
-                    (InstrumentationStackValue.FIRST,),
+                    DynamicConstantProvider.add_value_for_concatenation.__name__,
+                    # The receiver followed by the argument ends with the argument
+                    (InstrumentationStackValue.SECOND, InstrumentationStackValue.FIRST),
                 ),
                 instr.lineno,
             )
